@@ -135,28 +135,38 @@ func ArrayToAppendAction() RewriteAction {
 		newFirstArg.Type = option.Args[0].Type.AsArray().ValueType
 		newFirstArg.Name = tools.Singularize(newFirstArg.Name)
 
-		// Update the assignment to do an append instead of a list assignment
-		oldAssignments := option.Assignments
-
-		// the assignment's value can be shared with other options: work on a copy.
-		newFirstAssignment := option.Assignments[0].DeepCopy()
-		newFirstAssignment.Method = ast.AppendAssignment
-		// TODO: what if there is an envelope in the value assignment?
-		if newFirstAssignment.Value.Argument != nil {
-			newFirstAssignment.Value.Argument.Name = newFirstArg.Name
-			newFirstAssignment.Value.Argument.Type = newFirstArg.Type
+		// Update the assignment to do an append instead of a list assignment: the one that
+		// assigns the argument (other assignments can come first, constants for instance)
+		target := assignmentOfArgument(option, option.Args[0])
+		if target == -1 {
+			// TODO: what if there is an envelope in the value assignment?
+			return []ast.Option{option}
 		}
 
 		newOpt := option
 		newOpt.Args = []ast.Argument{newFirstArg}
-		newOpt.Assignments = []ast.Assignment{newFirstAssignment}
+		newOpt.Assignments = make([]ast.Assignment, 0, len(option.Assignments))
 		newOpt.AddToVeneerTrail("ArrayToAppend")
+
+		for i, assignment := range option.Assignments {
+			if i != target {
+				newOpt.Assignments = append(newOpt.Assignments, assignment)
+				continue
+			}
+
+			// the assignment's value can be shared with other options: work on a copy.
+			newAssignment := assignment.DeepCopy()
+			newAssignment.Method = ast.AppendAssignment
+			if newAssignment.Value.Argument != nil {
+				newAssignment.Value.Argument.Name = newFirstArg.Name
+				newAssignment.Value.Argument.Type = newFirstArg.Type
+			}
+
+			newOpt.Assignments = append(newOpt.Assignments, newAssignment)
+		}
 
 		if len(oldArgs) > 1 {
 			newOpt.Args = append(newOpt.Args, oldArgs[1:]...)
-		}
-		if len(oldAssignments) > 1 {
-			newOpt.Assignments = append(newOpt.Assignments, oldAssignments[1:]...)
 		}
 
 		return []ast.Option{newOpt}
@@ -200,36 +210,83 @@ func MapToIndexAction() RewriteAction {
 		newSecondArg.Type = option.Args[0].Type.Map.ValueType
 		newSecondArg.Name = tools.Singularize(option.Args[0].Name)
 
-		// Update the assignment to do an append instead of a list assignment
-		oldAssignments := option.Assignments
-
-		// the assignment's value can be shared with other options: work on a copy.
-		newFirstAssignment := option.Assignments[0].DeepCopy()
-		newFirstAssignment.Method = ast.IndexAssignment
-		newFirstAssignment.Path = newFirstAssignment.Path.Append(ast.Path{{
-			Index: &ast.PathIndex{Argument: &newFirstArg},
-			Type:  option.Args[0].Type.Map.ValueType,
-		}})
-		// TODO: what if there is an envelope in the value assignment?
-		if newFirstAssignment.Value.Argument != nil {
-			newFirstAssignment.Value.Argument.Name = newSecondArg.Name
-			newFirstAssignment.Value.Argument.Type = newSecondArg.Type
+		// Update the assignment to do an index assignment instead of a map assignment: the one
+		// that assigns the argument (other assignments can come first, constants for instance)
+		target := assignmentOfArgument(option, option.Args[0])
+		if target == -1 {
+			// TODO: what if there is an envelope in the value assignment?
+			return []ast.Option{option}
 		}
 
 		newOpt := option
 		newOpt.Args = []ast.Argument{newFirstArg, newSecondArg}
-		newOpt.Assignments = []ast.Assignment{newFirstAssignment}
+		newOpt.Assignments = make([]ast.Assignment, 0, len(option.Assignments))
 		newOpt.AddToVeneerTrail("MapToIndex")
+
+		for i, assignment := range option.Assignments {
+			if i != target {
+				newOpt.Assignments = append(newOpt.Assignments, assignment)
+				continue
+			}
+
+			// the assignment's value can be shared with other options: work on a copy.
+			newAssignment := assignment.DeepCopy()
+			newAssignment.Method = ast.IndexAssignment
+			newAssignment.Path = newAssignment.Path.Append(ast.Path{{
+				Index: &ast.PathIndex{Argument: &newFirstArg},
+				Type:  option.Args[0].Type.Map.ValueType,
+			}})
+			if newAssignment.Value.Argument != nil {
+				newAssignment.Value.Argument.Name = newSecondArg.Name
+				newAssignment.Value.Argument.Type = newSecondArg.Type
+			}
+
+			newOpt.Assignments = append(newOpt.Assignments, newAssignment)
+		}
 
 		if len(oldArgs) > 1 {
 			newOpt.Args = append(newOpt.Args, oldArgs[1:]...)
 		}
-		if len(oldAssignments) > 1 {
-			newOpt.Assignments = append(newOpt.Assignments, oldAssignments[1:]...)
-		}
 
 		return []ast.Option{newOpt}
 	}
+}
+
+// assignmentOfArgument gives the index of the assignment of `option` whose value
+// is the given argument itself, provided that this is the only use of the
+// argument by the option. It gives -1 otherwise.
+func assignmentOfArgument(option ast.Option, argument ast.Argument) int {
+	target, uses := -1, 0
+	for i, assignment := range option.Assignments {
+		if assignment.Value.Argument != nil && assignment.Value.Argument.Name == argument.Name {
+			target = i
+		}
+
+		uses += countArgumentUses(assignment.Value, argument.Name)
+	}
+
+	if uses != 1 {
+		return -1
+	}
+
+	return target
+}
+
+// countArgumentUses counts the uses of an argument by an assignment value:
+// directly, or from within the fields of an envelope.
+func countArgumentUses(value ast.AssignmentValue, argumentName string) int {
+	uses := 0
+	if value.Argument != nil && value.Argument.Name == argumentName {
+		uses++
+	}
+
+	if value.Envelope != nil {
+		for _, envelopeValue := range value.Envelope.Values {
+			uses += countArgumentUses(envelopeValue.Value, argumentName)
+		}
+	}
+
+	return uses
 }
 
 // OmitAction removes an option.
